@@ -1033,15 +1033,16 @@ class Filterbank(ABC):
         gulp = max(2 * max_delay, gulp)
         # must be memset to zero in c code
         out_ar = np.empty((gulp - max_delay) * nsub, dtype="float32")
-        new_foff = self.header.foff * self.header.nchans // nsub
-        new_fch1 = self.header.ftop - new_foff / 2
+        new_foff = self.header.foff * subfactor
+        new_fch1 = self.header.ftop + new_foff / 2
         chan_to_sub = np.arange(self.header.nchans, dtype="int32") // subfactor
         updates = {
             "fch1": new_fch1,
             "foff": new_foff,
-            "refdm": dm,
+            "dm": dm,
             "nchans": nsub,
             "nbits": 32,
+            "tstart": self.header.mjd_after_nsamps(start),
         }
         if outfile_name is None:
             outfile_name = f"{self.header.basename}_DM{dm:06.2f}.subbands"
